@@ -145,6 +145,29 @@ func GenCommand(r *ref.Rand, keys []string, g GenCfg, last bool) *Cmd {
 			ks[n-1] = ks[0]
 			cls = "get-multi-dup"
 		}
+		if r.Intn(4) == 0 {
+			// a long command line: many keys, some of them long keys that were never stored;
+			// the line crosses the 4 KB / 8 KB sizes of typical read buffers
+			n = r.Range(12, 90)
+			ks = make([]string, n)
+			total := 0
+			for i := range ks {
+				if r.Intn(5) < 3 {
+					ks[i] = keys[r.Intn(len(keys))]
+				} else {
+					ks[i] = strings.Repeat("M", r.Range(60, 240)) + fmt.Sprint(r.Intn(1000000))
+				}
+				total += len(ks[i]) + 1
+			}
+			switch {
+			case total > 8192:
+				cls = "get-multi-long>8K"
+			case total > 4096:
+				cls = "get-multi-long>4K"
+			default:
+				cls = "get-multi-long<=4K"
+			}
+		}
 		verb := "get"
 		if r.Intn(4) == 0 {
 			verb = "gets"
